@@ -858,8 +858,19 @@ rf64_command (SF_PRIVATE *psf, int command, void * UNUSED (data), int datasize)
 
 static int
 rf64_set_chunk (SF_PRIVATE *psf, const SF_CHUNK_INFO * chunk_info)
-{	/* The header parser gives up at a marker that is not four printable characters. */
+{	/*
+	** Chunks this file writes and parses itself : a second copy from the application
+	** would be taken for the real one when the file is read.
+	*/
+	static const uint32_t reserved [] =
+	{	ds64_MARKER, fmt_MARKER, data_MARKER, PEAK_MARKER, bext_MARKER, cart_MARKER
+		} ;
+
+	/* The header parser gives up at a marker that is not four printable characters. */
 	if (! psf_chunk_id_is_printable (chunk_info))
+		return SFE_BAD_CHUNK_MARKER ;
+
+	if (psf_chunk_id_is_one_of (chunk_info, reserved, ARRAY_LEN (reserved)))
 		return SFE_BAD_CHUNK_MARKER ;
 
 	return psf_save_write_chunk (&psf->wchunks, chunk_info) ;
